@@ -26,7 +26,6 @@ from a816.parse.ast.nodes import (
     ScopeAstNode,
     SymbolAffectationAstNode,
     TableAstNode,
-    Term,
     TextAstNode,
 )
 from a816.parse.nodes import (
@@ -49,7 +48,7 @@ from a816.parse.nodes import (
     TextNode,
     WordNode,
 )
-from a816.parse.tokens import Token, TokenType
+from a816.parse.tokens import Token
 from a816.symbols import Resolver
 
 MacroDefinitions = dict[str, Any]
@@ -320,13 +319,8 @@ def generate_for(
         resolver.append_internal_scope()
         resolver.use_next_scope()
         code.append(ScopeNode(resolver))
-        code.append(
-            SymbolNode(
-                node.symbol,
-                ExpressionAstNode([Term(Token(TokenType.NUMBER, str(k)))]),
-                resolver,
-            )
-        )
+        # bind the loop variable now: the body is expanded (nested .if / .for bounds / macro arguments) with it in scope
+        resolver.current_scope.add_symbol(node.symbol, k)
         code += _code_gen(node.body.body, resolver, macro_definitions)
         code.append(PopScopeNode(resolver))
         resolver.restore_scope()
